@@ -14,8 +14,13 @@ for m in "${names[@]}"; do
   if ! git -C /repo apply --check /verif/seeded/$m/patch.diff 2>/dev/null; then
     printf "%s\t%s\t-\t-\tpatch does not apply on the current tree (see meta.json)\n" $m $prop >> $out; continue
   fi
-  VERIF_NO_MIRI=1 TRY_LINES=2 timeout 3000 tools/try_mutant.sh /verif/seeded/$m/patch.diff $prop > /tmp/mm.out 2>&1
+  # engine A, std flavour first (cheapest); all quick flavours when that reports nothing
+  VERIF_FLAVOURS=std VERIF_NO_MIRI=1 TRY_LINES=2 timeout 3000 tools/try_mutant.sh /verif/seeded/$m/patch.diff $prop > /tmp/mm.out 2>&1
   rc=$(grep -o 'exit=[0-9]*' /tmp/mm.out | tail -1 | cut -d= -f2); eng=A
+  if [ "$rc" = "0" ]; then
+    VERIF_NO_MIRI=1 TRY_LINES=2 timeout 3000 tools/try_mutant.sh /verif/seeded/$m/patch.diff $prop > /tmp/mm.out 2>&1
+    rc=$(grep -o 'exit=[0-9]*' /tmp/mm.out | tail -1 | cut -d= -f2)
+  fi
   if [ "$rc" = "0" ] && grep -q "\"$prop\"" <<< '"C01" "C07" "C13" "C16" "C17" "C18"'; then
     TRY_LINES=3 timeout 3000 tools/try_mutant.sh /verif/seeded/$m/patch.diff $prop > /tmp/mm.out 2>&1
     rc=$(grep -o 'exit=[0-9]*' /tmp/mm.out | tail -1 | cut -d= -f2); eng=A+miri
